@@ -214,7 +214,8 @@ DoneClauses(s, e) ==
           Cl("Counts.total", Cfg.cb => e.total = nEv),
           Cl("Counts.unique", Cfg.cb => e.uniq = nUniq),
           Cl("Counts.bounds", e.uniq <= e.total /\ (Cfg.count > 0 => e.uniq <= Cfg.count)
-                                /\ (Cfg.loop = 0 => e.uniq = e.total)) }
+                                /\ (Cfg.loop = 0 => e.uniq = e.total)
+                                /\ (Cfg.loop > 0 => e.total <= e.uniq * Cfg.loop)) }
         \cup (IF G!IdentityTemplate(K) /\ Sync(Tr.init) /\ fits
               THEN {Cl("Identity", t.liveS = Tr.init.liveS)} ELSE {})
    ELSE {})
